@@ -72,6 +72,11 @@ func main() {
 	handlerSweep(run, dir)
 	parserSweep(run)
 	hostile(run, dir)
+	if run.Thorough() {
+		run.Fuzz("FuzzHandler", 1000000, 40*time.Minute)
+		run.Fuzz("FuzzRekorJSON", 100000, 40*time.Minute)
+		run.Fuzz("FuzzProofUnmarshal", 300000, 15*time.Minute)
+	}
 }
 
 // ---------- (i) handler sweep ----------
